@@ -1,12 +1,55 @@
 import TwistedModel.Dns.Serial
-/-! Driver glue for C34: `C34 <bits> <a> <b>` → `num_a num_b eq lt gt le ge add` -/
+/-! Driver glue for C34.
+`C34 <bits> <a> <b>` → `num_a num_b eq lt gt le ge add rbits r>a,r<a,r==a`
+`C34 P <num:bits,num:bits,…> <kind:i:j,…>` → `c=<numbers as stored> <one token per operation> f=<final slots>` -/
 namespace Twisted.Drv.C34
 open Twisted.Dns.Serial
 
 def b2s (b : Bool) : String := if b then "1" else "0"
 
+def parseObj (s : String) : Option (Int × Nat) :=
+  match s.splitOn ":" with
+  | [n, w] => match n.toInt?, w.toNat? with
+    | some n, some w => some (n, w)
+    | _, _ => none
+  | _ => none
+
+def parseKind (s : String) : Option Kind :=
+  match s with
+  | "eq" => some .eq | "lt" => some .lt | "gt" => some .gt | "le" => some .le | "ge" => some .ge
+  | "add" => some .add | "iadd" => some .iadd
+  | _ => none
+
+def parseOp (s : String) : Option Op :=
+  match s.splitOn ":" with
+  | [k, i, j] => match parseKind k, i.toNat?, j.toNat? with
+    | some k, some i, some j => some ⟨k, i, j⟩
+    | _, _, _ => none
+  | _ => none
+
+def showRes : Res → String
+  | .bool b => b2s b
+  | .sum v w g l e => s!"{v}:{w}:{b2s g}{b2s l}{b2s e}"
+  | .arith => "A"
+  | .type => "T"
+  | .skip => "-"
+
+def showSlot : Slot → String
+  | some (n, w) => s!"{n}:{w}"
+  | none => "-"
+
 def handle (args : List String) : String :=
   match args with
+  | ["P", objs, ops] =>
+    match (objs.splitOn ",").mapM parseObj, (ops.splitOn ",").mapM parseOp with
+    | some objs, some ops =>
+      let slots : List Slot := objs.map fun (n, w) => some (mk n w, w)
+      let (rs, fin) := run slots ops
+      let c := ",".intercalate (slots.map showSlot)
+      let r := " ".intercalate (rs.map showRes)
+      let f := ",".intercalate (fin.map showSlot)
+      s!"c={c} {r} f={f}"
+    | _, _ => "bad-op"
   | [bits, a, b] =>
     match bits.toNat?, a.toInt?, b.toInt? with
     | some bits, some a, some b =>
@@ -14,8 +57,10 @@ def handle (args : List String) : String :=
       let x := mk a bits
       let y := mk b bits
       let s := match add x y (maxAdd bits) (modulo bits) with
-        | some r => toString r
-        | none => "ArithmeticError"
+        | some r =>
+          let r := mk r bits
+          s!"{r} {bits} {b2s (gt r x h)}{b2s (lt r x h)}{b2s (eq r x)}"
+        | none => "ArithmeticError - ---"
       s!"{x} {y} {b2s (eq x y)} {b2s (lt x y h)} {b2s (gt x y h)} {b2s (le x y h)} {b2s (ge x y h)} {s}"
     | _, _, _ => "bad-op"
   | _ => "bad-op"
